@@ -2,7 +2,8 @@
 reference model (``qv.model``).
 
     circuit := {"reps": n | {"reg": key}, "steps": [step, ...], "nq": declared register size (optional)}
-    step    := {"k": Kind, "q": [qubits], "dur": null | number | {"reg": key} | {"glob": KEY},
+    step    := {"sub": circuit, "rel": [TYPE, idx]?}   (with "rel": added through add_operation, relation kept)
+             | {"k": Kind, "q": [qubits], "dur": null | number | {"reg": key} | {"glob": KEY},
                 "chan": null | CHANNEL, "tag": str, "f": {extra int fields}, "rel": null | [TYPE, ref_index],
                 "reg_of": ancestor depth whose acquisition registry a measurement uses (0 = own circuit)}
              | {"sub": circuit}
@@ -210,7 +211,19 @@ def _add_step(built: Built, level: Level, stack: List[Level], i: int, step: Dict
     ctx = built.ctx
     circuit = level.circuit
     path = level.path
-    if "sub" in step:
+    if "sub" in step and step.get("rel") is not None:
+        # a sub-circuit with an explicit relation: built with that relation and added as an operation (add_operation keeps the
+        # object and its relation; add / add_sub_circuit copy it and re-point the relation through an empty lookup)
+        rel = step["rel"]
+        relation = RelationLink(level.handles[rel[1]], RelationType[rel[0]])
+        child = _build_level(step["sub"], built, stack, path + (i,), relation=relation)
+        handle = circuit.add_operation(child.circuit.circuit_structure)
+        mnode = M.MNode(is_block=True, sub=child.mnodes, reps=step["sub"].get("reps", 1), kind="<block>")
+        level.children.append(child)
+        built.count("blocks")
+        built.count("blocks_with_explicit_relation")
+        built.count("blocks_explicit_" + rel[0])
+    elif "sub" in step:
         child = _build_level(step["sub"], built, stack, path + (i,))
         handle = circuit.add(child.circuit)
         mnode = M.MNode(is_block=True, sub=child.mnodes, reps=step["sub"].get("reps", 1), kind="<block>")
@@ -242,9 +255,11 @@ def _add_step(built: Built, level: Level, stack: List[Level], i: int, step: Dict
     return handle
 
 
-def _build_level(bp: Dict[str, Any], built: Built, stack: List[Level], path: Tuple[int, ...]) -> Level:
+def _build_level(bp: Dict[str, Any], built: Built, stack: List[Level], path: Tuple[int, ...], relation=None) -> Level:
     from qce_circuit.language.declarative_circuit import DeclarativeCircuit
     kwargs = {"nr_qubits": int(bp["nq"])} if bp.get("nq") else {}      # declared register size: informative only, nothing enforces it
+    if relation is not None:
+        kwargs["relation"] = relation
     circuit = DeclarativeCircuit(repetition_strategy=_repetition_strategy(bp.get("reps", 1), built.ctx), **kwargs)
     level = Level(bp, circuit, path)
     stack = stack + [level]
